@@ -222,8 +222,57 @@ def run_views(ctx: Ctx) -> None:
                     if not teq(uu2[q], apply(map2, co2[q]).sub(co2[q])):
                         return False, (f"disp(grid2) on a grid with a different domain is not the same world-space map expressed in grid2's "
                                        f"cube coordinates (sample {q})")
+                # ... and on the transform's own sampling grid with the other align_corners flag (equal as a Grid, other cube convention)
+                g3 = it.method(env.grid, "align_corners", not ac)
+                c3w = as_h(it.method(g3, "transform", env.ax(cube2), W))
+                w3c = as_h(it.method(g3, "transform", W, env.ax(cube2)))
+                map3 = compose(w3c, compose(want_map, c3w))
+                u3 = it.method(t, "disp", g3)
+                uu3 = u3[0].permute(list(range(1, D + 1)) + [0]).reshape([-1, D])
+                for q in range(co2.shape[0]):
+                    if not teq(uu3[q], apply(map3, co2[q]).sub(co2[q])):
+                        return False, (f"disp(grid.align_corners({not ac})): on the transform's own sampling points with the other flag the field "
+                                       f"is not the same world-space map expressed in that cube convention (sample {q})")
                 return True, ""
             _guard(ctx, "T67.views", f"{name}:D={D}", fF, f"class={name} D={D}", th)
+
+
+def run_derived_views(ctx: Ctx) -> None:
+    """Views of a transform obtained from another one by a functional setter (data(p), grid(g)) describe the *new* mapping."""
+    from .t6_transforms import TEnv as HEnv, fresh_tensor
+    prog = ctx.prog
+    ctx.rule("T67.derived-views", "for every non-rigid model whose buffers are populated: the transform returned by data(new_params) / grid(g) "
+                                  "serves, right away, the tensor() / disp() recomputed from its own parameters and grid (the same field its "
+                                  "point map uses after update()), not the buffered field of the transform it was derived from")
+    for mod, cls, kw in NONRIGID:
+        ci = prog.cls(mod, cls)
+        for kind in ("buffer", "parameter"):
+            for op in ("data", "grid"):
+                fm = prog.find_method(ci, op)
+                ctx.fn(fm)
+
+                def th(mod=mod, cls=cls, kw=kw, kind=kind, op=op):
+                    env = HEnv(ctx, 2)
+                    it = env.it
+                    t = env.make(mod, cls, kw, kind)
+                    it.method(t, "update")
+                    if op == "data":
+                        p = it.method(t, "data")
+                        t2 = it.method(t, "data", env.sym(list(p.shape)))
+                    else:
+                        t2 = it.method(t, "grid", env.grid2)
+                    if t2 is t:
+                        return False, f"{op}() returned the transform itself"
+                    got = it.method(t2, "tensor")
+                    want = fresh_tensor(it, t2)
+                    if tuple(got.shape) != tuple(want.shape) or not teq(got, want):
+                        return False, f"{cls}.{op}(...).tensor() is not recomputed from the derived transform's own parameters / grid (stale buffer)"
+                    d = it.method(t2, "disp")
+                    c2 = it.method(t2, "disp")
+                    if not teq(d, c2):
+                        return False, "disp() not reproducible"
+                    return True, ""
+                _guard(ctx, "T67.derived-views", f"{cls}:{kind}:{op}", fm, f"class={cls} params={kind} derived by {op}()", th)
 
 
 def run_param_matrix(ctx: Ctx) -> None:
@@ -685,6 +734,16 @@ def run_inverse(ctx: Ctx) -> None:
                     if not teq(rec[0]["flow"], rec[1]["flow"]) or rec[1]["net"] != Fraction(-1, 2) or rec[0]["net"] != Fraction(1, 2):
                         return False, (f"{cls} ({kind} parameters, link={link}): after the parameters were changed ({how}) and update(), "
                                        f"the inverse taken before does not exponentiate the new velocity field with the negated scale")
+                    if kind != "callable":
+                        # the inverse stays the inverse when it is put on another grid (functional grid(g) and in-place grid_(g))
+                        for how in ("grid", "grid_"):
+                            inv_r = it.method(inv, "grid", env.grid2) if how == "grid" else it.method(it.method(inv, "grid", env.grid), "grid_", env.grid2)
+                            del rec[:]
+                            it.method(inv_r, "update")
+                            if len(rec) != 1 or rec[0]["net"] != Fraction(-1, 2) or rec[0]["steps"] != fwd[0]["steps"]:
+                                return False, (f"{cls}: after {how}(other grid) the inverse exponentiates with scale "
+                                               f"{rec[0]['net'] if rec else '?'} and steps {rec[0]['steps'] if rec else '?'} "
+                                               f"(expected -1/2 and {fwd[0]['steps']})")
                     return True, ""
                 _guard(ctx, "T67.inverse-velocity", f"{cls}:{kind}:link={link}:upd={upd}:{via}", fInv,
                        f"class={cls} params={kind} link={link} update_buffers={upd} via={via}", thv)
